@@ -6,6 +6,11 @@
      res_ascii  the same for m.as_ascii(se, ss)               ascii   rows of 1-char strings
      rt_px      "ok" | "raise:<Type>" | "na" of type(m).from_pixels(image)    back_px     proj of the result ([] unless ok)
      rt_ascii   the same for type(m).from_ascii(text)                         back_ascii
+   Px / FromPx are operators of the maze value, the flags and the picture only, so every record is judged
+   on its own: the driver also records HISTORIES (the same object re-rendered under changing flags, the
+   returned array overwritten by the caller, the same picture read twice, results projected only after
+   later calls, one class reading pictures of decreasing sizes) and magnitude cases (pixel coordinates
+   beyond 127 and 255, solutions of 127..129, 255..257 and more cells) - each observation is an ordinary record.
    Layer P (the statement): flag rejection, size, palette, border, cell_pixels, edge_pixels, endpoints,
    solution_pixels, ascii, roundtrip_{pixels,ascii}_{raises,kind,connections,endpoints,solution}
    (the read-back clauses only for a complete picture of a maze inside the premise).
